@@ -23,6 +23,15 @@ CLAIMED = {
             "M mu + b and Sigma + M Sigma_x M', result proved wf_pdf, and its log-density proved equal to ln of the Gaussian integral of "
             "p(y|x)p(x) over x (G1) using Woodbury and Sylvester hints that the kernel checks; (n,m) refusal proved.",
             BASE_NOTE + " G1 assumed.", "DESIGN §6-C08"),
+    "C05": ("get_marginal for an ARBITRARY injective index list (any order, subset or all coordinates; full and diagonal): mean/covariance "
+            "proved to be the sub-vector / sub-matrix, result proved wf_pdf, and its log-density proved equal to ln of the Gaussian integral "
+            "of the joint over the remaining coordinates (Schur-complement inverse checked by the kernel, principal-submatrix determinant "
+            "from the Lean library). get_density_of_linear_sum: law N(W mu + b, W Sigma W') with and without b, and the refusal for too many rows.",
+            BASE_NOTE + " G1 assumed; positive definiteness of W Sigma W' (full row rank) is a precondition.", "DESIGN §6-C05"),
+    "C06": ("condition_on / condition_on_explicit for an arbitrary partition of the coordinates by two disjoint injective index lists "
+            "(any order): parameters proved equal to the spec, result proved a well-formed conditional, and the product rule "
+            "p(x_a|x_b) p(x_b) = p(x) proved at all points through the real condition_on_x, get_marginal and evaluate_ln.",
+            BASE_NOTE + " jnp.setxor1d (ascending complement) is an assumed contract.", "DESIGN §6-C06"),
     "C07": ("affine_joint_transformation of all five conditional kinds, layouts (1,1),(1,n),(n,1), both dimension regimes: block mean and "
             "covariance proved equal to the spec, the joint proved wf_pdf (block Sigma*Lambda = I; log-determinant by the Lean-checked Schur "
             "lemmas), and its log-density proved equal to ln p(y|x) + ln p(x) at all points; (n,m) refusal proved.", BASE_NOTE, "DESIGN §6-C07"),
